@@ -142,12 +142,60 @@ def check_lcc(project: Project, rep, fi):
                     failing_input="path P3 ⊎ K2 vs P3: ValueError('value {} too large…')")
     else:
         rep.unmodelled("GH-LCC", fi, st, "unrecognised restriction of the distance matrix")
-    # the mask must select the largest component: argmax over component sizes
-    txt = "\n".join(ast.unparse(s) for s in branch.body)
-    if "argmax" in txt and "connected_components" in txt:
-        rep.discharged("GH-LCC", fi, branch, "the kept component is the argmax of the component sizes", nontrivial=False)
-    elif "argmin" in txt:
-        rep.refuted("GH-LCC", fi, branch, "the smallest, not the largest, connected component is kept")
+    # the mask must select exactly ONE component: per-vertex component labels compared with the single label that has
+    # the largest count. A mask built from per-vertex component *sizes* keeps every component tied for largest.
+    mask_txt = rows_mask or cols_mask
+    mask_expr = None
+    if mask_txt:
+        for n in ast.walk(branch):
+            if isinstance(n, ast.Assign) and isinstance(n.targets[0], ast.Name) and n.targets[0].id == mask_txt:
+                mask_expr = n.value
+        if mask_expr is None:
+            try:
+                mask_expr = ast.parse(mask_txt, mode="eval").body
+            except SyntaxError:
+                mask_expr = None
+    assigns = {}
+    for n in ast.walk(branch):
+        if isinstance(n, ast.Assign):
+            for t in (n.targets[0].elts if isinstance(n.targets[0], ast.Tuple) else [n.targets[0]]):
+                if isinstance(t, ast.Name):
+                    assigns[t.id] = n
+    def from_call(name, fn):
+        a = assigns.get(name)
+        return a is not None and isinstance(a.value, ast.Call) and \
+            project.resolve(fi.module, a.value.func, local_names(f)) == fn
+    verdict = None
+    if isinstance(mask_expr, ast.Compare) and len(mask_expr.ops) == 1 and isinstance(mask_expr.ops[0], ast.Eq):
+        l, r = mask_expr.left, mask_expr.comparators[0]
+        names = [x.id for x in (l, r) if isinstance(x, ast.Name)]
+        labels = [nm for nm in names if from_call(nm, "scipy.sparse.csgraph.connected_components")]
+        others = [x for x in (l, r) if not (isinstance(x, ast.Name) and x.id in labels)]
+        if labels and len(others) == 1:
+            o = others[0]
+            otxt = ast.unparse(assigns[o.id].value) if isinstance(o, ast.Name) and o.id in assigns else ast.unparse(o)
+            if "argmax" in otxt:
+                verdict = ("ok", f"vertices whose component label equals the label of largest count ({otxt})")
+            elif "argmin" in otxt:
+                verdict = ("bad", "the smallest, not the largest, connected component is kept")
+            else:
+                verdict = ("unknown", f"component label compared with `{otxt}`")
+        else:
+            # equality of a per-vertex quantity with its maximum keeps all ties
+            rtxt = ast.unparse(r)
+            ltxt = ast.unparse(l)
+            if ("max(" in rtxt and ltxt in rtxt) or ("max(" in ltxt and rtxt in ltxt):
+                verdict = ("bad", f"the mask `{ast.unparse(mask_expr)}` keeps every vertex whose per-vertex value equals the "
+                                  f"maximum: when two components tie for largest both are kept, the matrix still contains inf "
+                                  f"and the call raises instead of falling back to one component")
+    if verdict is None:
+        rep.unmodelled("GH-LCC", fi, branch, "cannot tell which vertices the largest-component mask keeps")
+    elif verdict[0] == "ok":
+        rep.discharged("GH-LCC", fi, branch, f"the mask keeps {verdict[1]}: exactly one component")
+    elif verdict[0] == "bad":
+        rep.refuted("GH-LCC", fi, st, verdict[1], failing_input="two disjoint triangles (tie for largest component)")
+    else:
+        rep.unmodelled("GH-LCC", fi, branch, verdict[1])
 
 
 def _rowcol(sl):
